@@ -271,7 +271,7 @@ def install_stubs(targets, own, names=None):
                     except Exception:
                         pass
                 if nm is not None:
-                    pyvc_rt._call_excs[nm] = (r[1].__name__, r[2] if len(r) > 2 else None)
+                    pyvc_rt._call_excs[nm] = (r[1].__qualname__, r[2] if len(r) > 2 else None)
                     pyvc_rt._call_rets.pop(nm, None)
                 raise e
             if nm is not None:
